@@ -114,6 +114,52 @@ fn twin_case<T: Sc>(rng: &mut Rng, case: u64, out: &mut CaseOut) {
     }
 }
 
+/// rank-deficient states of the weighted problem and its pre-scaled twin
+fn rankdef_case<T: Sc>(rng: &mut Rng, case: u64, out: &mut CaseOut) {
+    let stream = "rank-deficient";
+    let (g, hist) = gen_rank_deficient(rng, T::IS_F64, 3, 3);
+    let mut spec = g.spec;
+    let n = spec.y.r;
+    if spec.w.is_none() {
+        spec.w = gen_weights(rng, WClass::Mixed, n, n);
+    }
+    let thr = crate::sc::rt::<T>(spec.eps.unwrap()).abs();
+    let bspec = prescaled::<T>(&spec);
+    let (Ok(mut a), Ok(mut b)) = (build_problem::<T>(&spec, &SpyCtl::new()), build_problem::<T>(&bspec, &SpyCtl::new())) else {
+        violation(out, stream, case, "valid problem rejected", spec.to_json());
+        return;
+    };
+    for step in 0..=hist.len() {
+        let sa = snap(&a, true);
+        let sb = snap(&b, true);
+        let alpha = sa.params.clone();
+        let v = View::new::<T>(&spec, &alpha);
+        match v.decisive_rank(thr, T::EPS) {
+            Some((kept, kk)) if kept < v.m && kk * T::EPS <= 1e-3 => {
+                let yw = widen(&a.weighted_data());
+                let dn = dnorms::<T>(&spec, &alpha, &v.w);
+                for s in 0..spec.s() {
+                    out.evals += 1;
+                    match close_ratio_k(&v, kk, yw.col(s), &sa, s, &sb, s, &dn, T::EPS) {
+                        Ok((rc, rr, rj)) if rc <= 1.0 && rr <= 1.0 && rj <= 1.0 => out.ratio("rank_deficient_twins", rc.max(rr).max(rj)),
+                        other => {
+                            violation(out, stream, case, format!("rank-deficient state: weighted problem and pre-scaled twin disagree (column {s}): {other:?}"), json!({"problem": spec.to_json(), "alpha": alpha}));
+                            return;
+                        }
+                    }
+                }
+                out.nontrivial.push(crate::rng::hash_u64s([spec.hash(), step as u64]));
+            }
+            _ => out.inconcl("rank-deficient state not decisive for the tolerance model"),
+        }
+        if step < hist.len() {
+            let vv = DVector::from_iterator(hist[step].len(), hist[step].iter().map(|x| T::of(*x)));
+            a.set_params(&vv);
+            b.set_params(&vv);
+        }
+    }
+}
+
 fn fit_twin_case<T: Sc>(rng: &mut Rng, case: u64, out: &mut CaseOut) {
     let stream = "prescaled-fit";
     let g = gen_problem(rng, &GenOpts { nmax: 40, smax: 3, noise: 0.02, ..Default::default() });
@@ -336,6 +382,7 @@ pub fn run(ctx: &Ctx) {
     let t = ctx.tier;
     let b = t.pick(15.0, 150.0);
     ctx.run_cases("prescaled-twin", t.pick(1500, 40000), b, |r, c, o| if c % 3 == 0 { twin_case::<f32>(r, c, o) } else { twin_case::<f64>(r, c, o) });
+    ctx.run_cases("rank-deficient", t.pick(400, 8000), b, |r, c, o| if c % 3 == 0 { rankdef_case::<f32>(r, c, o) } else { rankdef_case::<f64>(r, c, o) });
     ctx.run_cases("prescaled-fit", t.pick(400, 10000), b, |r, c, o| if c % 4 == 0 { fit_twin_case::<f32>(r, c, o) } else { fit_twin_case::<f64>(r, c, o) });
     ctx.run_cases("unit-vs-none", t.pick(400, 8000), b, |r, c, o| if c % 3 == 0 { unit_case::<f32>(r, c, o) } else { unit_case::<f64>(r, c, o) });
     ctx.run_cases("zero-weights", t.pick(500, 10000), b, |r, c, o| if c % 3 == 0 { zero_case::<f32>(r, c, o) } else { zero_case::<f64>(r, c, o) });
